@@ -1,8 +1,9 @@
 """Per-property check specifications."""
 
 NET_COMPONENTS = {"real": ["smt::sat_core", "clause", "theory", "lra_theory (+assertion,row)", "idl_theory", "rdl_theory", "ov_theory", "rational/inf_rational/lin"],
-                  "stub": [], "reference": ["z3 (entailment/satisfiability over Bool/Real/Int)", "own Floyd-Warshall over mpq pairs", "own three-valued evaluator"]}
-NET_RULE = ("a run = one seeded history of API calls on the real network (ops interpreted modulo what exists) under one seeded heap layout; "
+                  "stub": ["the client of the LRA theory (guard literals + direct bounds)"], "reference": ["z3 (entailment/satisfiability over Bool/Real/Int)", "own Floyd-Warshall over mpq pairs", "own three-valued evaluator", "structural invariants over the network's own tables (N9 path trees, N10 theory bindings, N11 unit-propagation fixpoint over every clause given or recorded)"]}
+NET_RULE = ("a run = one seeded history of API calls on the real network (ops interpreted modulo what exists) under one seeded heap layout and heap fill, including - in LRA runs - "
+            "a simulated client that decides its own literals, imposes bounds directly (set_lb/set_ub/set) and hands conflicts found outside propagation to backtrack_analyze_and_backjump; "
             "non-trivial = the network recorded >=1 learnt/lemma clause or answered false or backjumped inside assume, and the history popped/next-ed/checked at least once; "
             "distinct = distinct hash of (theory set, matrix size, theory order, op list)")
 NET_ASSUME = ["z3 4.8.12 verdicts (unsat/sat) are correct; 'unknown' under the deterministic rlimit is counted as inconclusive, never as a violation",
@@ -18,8 +19,8 @@ PROPS = {p: net(p) for p in ["C07", "C08", "C09", "C10", "C11", "C12", "C13", "C
 
 
 PLAN_COMPONENTS = {"real": ["riddle lexer/parser", "core (types, items, constructors, predicates)", "solver (graph h_1, flaws, resolvers, smart types)", "smt (sat_core, LRA, IDL, RDL, OV)"],
-                   "stub": [], "reference": ["own exact evaluator of the generated AST (GMP rationals + epsilon)", "z3 on the constraint-only fragment for negative verdicts"]}
-PLAN_RULE = ("a run = one generated RIDDLE problem (integer ops -> own AST -> text) delivered as a history of read()/solve()/pop-to-root calls under one seeded heap layout "
+                   "stub": [], "reference": ["own exact evaluator of the generated AST (GMP rationals + epsilon)", "z3 on the constraint-only fragment for negative verdicts", "C02: the same problem in five equivalent formulations (constraints reordered, tautology added, dead disjunct added, goal/fact statements reversed, a fact stated twice) read by a fresh solver"]}
+PLAN_RULE = ("a run = one generated RIDDLE problem (integer ops -> own AST -> text) delivered as a history of read()/solve()/pop-to-root calls under one seeded heap layout and heap fill "
              "(layout 0 = LIFO, others = seeded slot choice; each problem runs under K layouts); non-trivial = the planner created at least one flaw with >= 2 resolvers; "
              "distinct = distinct hash of (program text of all units, layout)")
 PLAN_ASSUME = ["the generated fragment only (see DESIGN.md 3.2); solve() not finishing within the per-run wall limit is counted as inconclusive",
@@ -79,7 +80,7 @@ def io_jobs(check, part, cfg):
             yield ("exec", dict(kv), ["mut file=%s layer=a seed=%d first=0 count=40" % (f, run_seed(check.master, "C18", check.tier, k))])
 
 
-IO_RULE = ("an input = (corpus file, prefix length, fault kind eof|stream-goes-bad, layer parser|reader) - every prefix length of every corpus file is enumerated - "
+IO_RULE = ("an input = (corpus file, prefix length, fault kind eof|stream-goes-bad, layer parser|reader) - every prefix length of every corpus file is enumerated, each parsed again under three heap fills (outcome and message must not depend on memory outside the input) - "
            "or a seeded byte mutation of a corpus file; plus seeded valid programs (PLAN engine) and valid API histories (NET engine) run on assert-enabled (and, thorough, ASan+UBSan) builds; "
            "non-trivial = the cut lands inside a token (neither neighbour is white space), a mutation, or a PLAN/NET run that is non-trivial by that engine's rule; distinct = distinct (op, input) resp. history hash")
 
